@@ -34,10 +34,16 @@ const (
 	numOutcomes
 )
 
-var outcomeName = [...]string{"NOERROR", "NXDOMAIN", "SERVFAIL", "REFUSED", "error", "garbage", "never"}
+// oXRcode: a well-formed reply whose rcode is caseDesc.Rcodes[slot] - any value
+// of the 12-bit rcode space other than 0 and 3 (the upper 8 bits travel in the
+// OPT record). It is not part of the enumerated product (numOutcomes); the
+// rcode-space phase (edge.go) generates it.
+const oXRcode = numOutcomes
+
+var outcomeName = [...]string{"NOERROR", "NXDOMAIN", "SERVFAIL", "REFUSED", "error", "garbage", "never", "RCODE-x"}
 
 func isGood(o int) bool     { return o == oNoErr || o == oNX }
-func isBadReply(o int) bool { return o == oServfail || o == oRefused }
+func isBadReply(o int) bool { return o == oServfail || o == oRefused || o == oXRcode }
 func rcodeOf(o int) int {
 	switch o {
 	case oNoErr:
@@ -79,6 +85,29 @@ type caseDesc struct {
 	// through (-1 = the plugin's own Exec over the full list)
 	History [][]int `json:"history,omitempty"`
 	ExecIdx int     `json:"exec_idx,omitempty"`
+	// rcode-space phase: the full 12-bit rcode of the reply of every slot whose
+	// outcome is RCODE-x; ReplyOPT: every reply carries an OPT record (replies with
+	// an rcode above 15 always do)
+	Rcodes   []int `json:"rcodes,omitempty"`
+	ReplyOPT bool  `json:"reply_opt,omitempty"`
+	// boundary-size phase: the query is built to an exact size (EDNS0 padding,
+	// filler records): SizeKind packed = Pack() gives Size bytes, no compression;
+	// packed-compressed = Compress is set, names compress, Pack() gives Size bytes;
+	// uncompressed = Compress is set and the message would be Size bytes without
+	// compression (the packed form is shorter)
+	Size     int    `json:"query_size,omitempty"`
+	SizeKind string `json:"query_size_applies_to,omitempty"`
+}
+
+// rcodeAt: the rcode the reply of a slot carries (-1: the outcome is no reply).
+func (cd *caseDesc) rcodeAt(slot, o int) int {
+	if o == oXRcode {
+		if slot >= 0 && slot < len(cd.Rcodes) {
+			return cd.Rcodes[slot]
+		}
+		return dns.RcodeServerFailure
+	}
+	return rcodeOf(o)
 }
 
 func clampC(c int) int {
@@ -125,6 +154,20 @@ func (cd *caseDesc) arrivalSeq() []int {
 	return seq
 }
 
+// arrivalNames: the outcomes in arrival order, replies of the extended space
+// with their rcode.
+func (cd *caseDesc) arrivalNames() []string {
+	out := make([]string, len(cd.Order))
+	for k, s := range cd.Order {
+		o := cd.Outcomes[s]
+		out[k] = outcomeName[o]
+		if o == oXRcode {
+			out[k] = fmt.Sprintf("RCODE-%d", cd.rcodeAt(s, o))
+		}
+	}
+	return out
+}
+
 func (cd *caseDesc) hasNever() bool {
 	for _, o := range cd.Outcomes {
 		if o == oNever {
@@ -144,6 +187,12 @@ func (cd *caseDesc) fingerprint() string {
 		sb.WriteString(outcomeName[o][:2])
 	}
 	fmt.Fprintf(&sb, "|ord%v|x%d", cd.Order, cd.Cancel)
+	if len(cd.Rcodes) > 0 {
+		fmt.Fprintf(&sb, "|rc%v%v", cd.Rcodes, cd.ReplyOPT)
+	}
+	if cd.Size > 0 {
+		fmt.Fprintf(&sb, "|size%d/%s", cd.Size, cd.SizeKind)
+	}
 	if len(cd.History) > 0 {
 		fmt.Fprintf(&sb, "|h%v@%d", cd.History, cd.ExecIdx)
 	}
@@ -206,6 +255,8 @@ func expect(seq []int, cancel int) expectation {
 type relCmd struct {
 	outcome int
 	garbage int
+	rcode   int  // of a reply outcome
+	opt     bool // the reply carries an OPT record
 }
 
 type invocation struct {
@@ -221,6 +272,7 @@ type invocation struct {
 	slot    int
 	marker  string
 	outcome int
+	rcode   int // rcode of the reply this invocation was told to send (-1: none)
 }
 
 type memUp struct {
@@ -238,15 +290,23 @@ var _ upstream.Upstream = (*memUp)(nil)
 func (u *memUp) ExchangeContext(ctx context.Context, m []byte) (*[]byte, error) {
 	c := u.cs.Load()
 	now := time.Now()
-	inv := &invocation{up: u, m: m, snap: append([]byte(nil), m...), ctx: ctx, rel: make(chan relCmd, 1), entered: now, slot: -1, outcome: -1}
+	inv := &invocation{up: u, m: m, snap: append([]byte(nil), m...), ctx: ctx, rel: make(chan relCmd, 1), entered: now, slot: -1, outcome: -1, rcode: -1}
 	inv.dl, inv.hasDL = ctx.Deadline()
 	if !c.addEntry(inv) {
 		return nil, errLate
 	}
 	// --- checks at hand-over ---
 	if !bytes.Equal(inv.snap, c.want) {
-		c.violate("payload-differs-from-packed-query", fmt.Sprintf("upstream #%d received %d bytes that differ from Pack(qCtx.Q()) (%d bytes)", u.idx, len(inv.snap), len(c.want)),
-			map[string]any{"received_hex": fmt.Sprintf("%x", inv.snap), "want_hex": fmt.Sprintf("%x", c.want)})
+		if c.cd.Size > 0 {
+			c.violate("payload-differs-from-packed-query-at-boundary-size", fmt.Sprintf("query built to %d bytes (%s; Pack(qCtx.Q()) = %d bytes): upstream #%d received %d bytes that differ from it, first difference at offset %d; received %s; want %s",
+				c.cd.Size, c.cd.SizeKind, len(c.want), u.idx, len(inv.snap), firstDiff(inv.snap, c.want), describeBytes(inv.snap), hexHead(c.want)),
+				map[string]any{"received_hex": hexHead(inv.snap), "want_hex": hexHead(c.want), "received": describeBytes(inv.snap), "first_difference_at": firstDiff(inv.snap, c.want)})
+		} else {
+			c.violate("payload-differs-from-packed-query", fmt.Sprintf("upstream #%d received %d bytes that differ from Pack(qCtx.Q()) (%d bytes)", u.idx, len(inv.snap), len(c.want)),
+				map[string]any{"received_hex": fmt.Sprintf("%x", inv.snap), "want_hex": fmt.Sprintf("%x", c.want)})
+		}
+	} else if c.cd.Size > 0 {
+		rep.Count("boundary_size_payloads_identical_to_packed_query", 1)
 	}
 	slack := time.Duration(-1)
 	if inv.hasDL {
@@ -280,8 +340,8 @@ func (u *memUp) ExchangeContext(ctx context.Context, m []byte) (*[]byte, error) 
 	}
 
 	switch cmd.outcome {
-	case oNoErr, oNX, oServfail, oRefused:
-		b, err := buildReply(c.want, rcodeOf(cmd.outcome), inv.marker)
+	case oNoErr, oNX, oServfail, oRefused, oXRcode:
+		b, err := buildReplyX(c.want, cmd.rcode, inv.marker, cmd.opt)
 		if err != nil {
 			rep.Inconclusive("harness could not build a reply: %v", err)
 			return nil, errScripted
@@ -318,17 +378,58 @@ func (u *memUp) ExchangeContext(ctx context.Context, m []byte) (*[]byte, error) 
 const markerName = "marker.c14.verif."
 
 func buildReply(q []byte, rcode int, marker string) ([]byte, error) {
+	return buildReplyX(q, rcode, marker, false)
+}
+
+// buildReplyX builds a reply with any rcode of the 12-bit space: the low 4 bits
+// go into the header, the upper 8 bits into the OPT record (RFC 6891), which is
+// added if opt is set or the rcode needs it.
+func buildReplyX(q []byte, rcode int, marker string, opt bool) ([]byte, error) {
 	m, err := wire.Parse(q)
 	if err != nil || len(m.Questions) != 1 {
 		return nil, fmt.Errorf("query unparsable: %v", err)
 	}
+	if rcode < 0 || rcode > 0xFFF {
+		return nil, fmt.Errorf("rcode %d outside the 12-bit space", rcode)
+	}
 	qq := m.Questions[0]
-	b := wire.NewBuilder(m.ID, 0x8180|uint16(rcode)).Question(qq.RawName, qq.Type, qq.Class)
+	b := wire.NewBuilder(m.ID, 0x8180|uint16(rcode&0xF)).Question(qq.RawName, qq.Type, qq.Class)
 	if rcode == dns.RcodeSuccess {
 		b.RR(0, qq.RawName, dns.TypeA, dns.ClassINET, 60, []byte{192, 0, 2, 53})
 	}
 	b.RR(2, wire.EncodeName(markerName), dns.TypeTXT, dns.ClassINET, 0, wire.TXTRdata(marker))
+	if opt || rcode > 0xF {
+		b.OPT(1232, uint8(rcode>>4), 0, false, 0, nil)
+	}
 	return b.Bytes(), nil
+}
+
+// describeBytes renders received bytes for a witness; the fill patterns of the
+// buffer-pool sanitizer are named (a pool buffer that was handed out but never
+// written, or one that has been released).
+func describeBytes(b []byte) string {
+	if len(b) > 0 {
+		same := true
+		for _, x := range b {
+			if x != b[0] {
+				same = false
+				break
+			}
+		}
+		if same {
+			what := ""
+			switch b[0] {
+			case 0xA5:
+				what = " = content of a pool buffer that was obtained but never written (sanitizer fill)"
+			case 0xDD:
+				what = " = content of a pool buffer that has been released (sanitizer poison)"
+			case 0xEE:
+				what = " = a payload another upstream had already scribbled over"
+			}
+			return fmt.Sprintf("%d x 0x%02x%s", len(b), b[0], what)
+		}
+	}
+	return hexHead(b)
 }
 
 func garbage(kind int, q []byte) []byte {
@@ -662,14 +763,27 @@ func runCase(cd *caseDesc, fwd *fastforward.Forward, ups []*memUp, pre sequence.
 		rep.Count("calls_through_tag_subsets", 1)
 	}
 
-	q := mkQuery(cd.Query, cd.QID, cd.ID)
-	qCtx := query_context.NewContext(q)
+	var qCtx *query_context.Context
+	if cd.Size > 0 {
+		sq, err := sizedQuery(cd)
+		if err != nil {
+			rep.Inconclusive("boundary sizes: cannot build a query of %d bytes (%s): %v", cd.Size, cd.SizeKind, err)
+			return c
+		}
+		qCtx = sq
+	} else {
+		qCtx = query_context.NewContext(mkQuery(cd.Query, cd.QID, cd.ID))
+	}
 	want, err := qCtx.Q().Pack()
 	if err != nil {
 		rep.Inconclusive("cannot pack query: %v", err)
 		return c
 	}
 	c.want = want
+	if cd.Size > 0 && ((cd.SizeKind == sizeUncompressed) != (len(want) < cd.Size) || len(want) > cd.Size) {
+		rep.Inconclusive("boundary sizes: the query that is forwarded has %d bytes, built for %d (%s)", len(want), cd.Size, cd.SizeKind)
+		return c
+	}
 
 	cc := makeCtx(cd.CtxKind, cd.Cancel == cancelPre)
 	defer cc.cancel()
@@ -785,7 +899,8 @@ func runCase(cd *caseDesc, fwd *fastforward.Forward, ups []*memUp, pre sequence.
 	blocked := func() int { return len(slots) - released }
 	release := func(inv *invocation, o int) {
 		inv.outcome = o
-		inv.rel <- relCmd{outcome: o, garbage: cd.Garbage + inv.seq}
+		inv.rcode = cd.rcodeAt(inv.slot, o)
+		inv.rel <- relCmd{outcome: o, garbage: cd.Garbage + inv.seq, rcode: inv.rcode, opt: cd.ReplyOPT}
 		released++
 	}
 	waitDelivered := func(target int, never bool) bool {
@@ -898,7 +1013,14 @@ func runCase(cd *caseDesc, fwd *fastforward.Forward, ups []*memUp, pre sequence.
 	// ---- judge ----
 	act := classify(cc.ctx, execErr, qCtx, slots)
 	c.mu.Lock()
-	c.observed["arrival_outcomes"] = names(seq)
+	c.observed["arrival_outcomes"] = cd.arrivalNames()
+	if len(cd.Rcodes) > 0 {
+		rcs := make([]int, len(seq))
+		for k, s := range cd.Order {
+			rcs[k] = cd.rcodeAt(s, cd.Outcomes[s])
+		}
+		c.observed["arrival_rcodes"] = rcs
+	}
 	c.observed["expected"] = exp
 	c.observed["actual"] = act
 	c.mu.Unlock()
@@ -1001,18 +1123,25 @@ func (c *caseRun) judgeOrdered(exp expectation, act actualResult, slots []*invoc
 	case "error":
 		ok = act.Kind == "error"
 	case "reply":
-		ok = act.Kind == "reply" && wantInv != nil && act.Marker == wantInv.marker && act.Rcode == rcodeOf(wantInv.outcome) && act.ID == cd.QID
+		ok = act.Kind == "reply" && wantInv != nil && act.Marker == wantInv.marker && act.Rcode == wantInv.rcode && act.ID == cd.QID
 	}
 	if ok {
 		rep.Count("results_as_stated", 1)
 		return
 	}
 	key := "result-want-" + wantClass + "-got-" + gotClass
-	what := fmt.Sprintf("arrival order %v, ctx end point %d: the statement gives %s", names(seq), cd.Cancel, describeExp(exp, seq))
+	what := fmt.Sprintf("arrival order %v, ctx end point %d: the statement gives %s", cd.arrivalNames(), cd.Cancel, describeExp(exp, cd.arrivalNames()))
 	if act.Kind == "reply" {
 		what += fmt.Sprintf("; the call returned the reply of arrival #%d (rcode %d, marker %q, id %d)", arrivalIndex(cd, act.Slot), act.Rcode, act.Marker, act.ID)
 		if wantInv != nil && act.Marker == wantInv.marker {
 			key = "result-right-upstream-but-altered-reply"
+			what += fmt.Sprintf("; that upstream had sent rcode %d", wantInv.rcode)
+		} else if act.Inv >= 0 {
+			if got := slots[indexOfSlot(slots, act.Slot)]; got.outcome == oXRcode {
+				// the reply that was preferred carries an rcode of the extended space
+				key += "-extended-rcode"
+				what += fmt.Sprintf("; that upstream had sent rcode %d = header nibble %d + OPT extended-rcode byte %d, which is neither NOERROR (0) nor NXDOMAIN (3)", got.rcode, got.rcode&0xF, got.rcode>>4)
+			}
 		}
 	} else {
 		what += fmt.Sprintf("; the call returned %s (%s)", act.Kind, act.Err)
@@ -1038,14 +1167,14 @@ func arrivalIndex(cd *caseDesc, slot int) int {
 	return -1
 }
 
-func describeExp(e expectation, seq []int) string {
+func describeExp(e expectation, seq []string) string {
 	switch e.Kind {
 	case "ctx":
 		return fmt.Sprintf("the context's error (context ended after %d arrivals)", e.At)
 	case "error":
-		return fmt.Sprintf("an error (last exchange, arrival #%d, %s)", e.At, outcomeName[seq[e.At]])
+		return fmt.Sprintf("an error (last exchange, arrival #%d, %s)", e.At, seq[e.At])
 	}
-	return fmt.Sprintf("the %s reply of arrival #%d", outcomeName[seq[e.At]], e.At)
+	return fmt.Sprintf("the %s reply of arrival #%d", seq[e.At], e.At)
 }
 
 func resKey(kind string, slot int) string {
